@@ -81,4 +81,25 @@ def replaceAllAux (old new : Bytes) : Nat → Bytes → Bytes
 
 def replaceAll (s old new : Bytes) : Bytes := if old.isEmpty then s else replaceAllAux old new 0 s
 
+
+/-- Go `error` values as far as the translated readers distinguish them. -/
+inductive GoErr where
+  | nil | eof | other
+  deriving Repr, DecidableEq
+
+/-- the error a `bufio.Reader`/`bufio.Scanner` reports when the underlying source is exhausted -/
+def endErr : Ending → GoErr
+  | .eof => .eof
+  | .fail => .other
+
+/-- `Scanner.Err()` after `Scan()` returned false: `nil` at a clean end of input -/
+def scanErr : Ending → GoErr
+  | .eof => .nil
+  | .fail => .other
+
+/-- `Scanner.Scan()` on the remaining tokens: (ok, current token, remaining tokens) -/
+def scan (cur : Bytes) : List Bytes → Bool × Bytes × List Bytes
+  | [] => (false, cur, [])
+  | l :: rest => (true, l, rest)
+
 end Bio.GoRt
